@@ -45,43 +45,54 @@ Fixpoint jvalue_eqb (a b : jvalue) : bool :=
 
 (** observed outcome of a decode on the implementation: value re-encoded to binary TTLV,
     error, panic; [OSkip]: the operation was not run for this row *)
-Inductive oc : Type := OOk (b : list Z) | OErr | OPanic | OSkip.
+Inductive oc : Type := OOk (b : list Z) | OErr | OPanic | OSkip | OWire.
 
-Definition oc_match (r : res item) (o : oc) : bool :=
+(** [w]: the binary encoding of the row's own item, for [OWire] = "ok, re-encodes to exactly that" *)
+Definition oc_match_w (w : list Z) (r : res item) (o : oc) : bool :=
   match o, r with
   | OSkip, _ => true
   | OOk b, Ok i => zlist_eqb (wire_enc i) b
+  | OWire, Ok i => zlist_eqb (wire_enc i) w
   | OErr, Err => true
   | OPanic, Panic => true
   | _, _ => false
   end.
+Definition oc_match := oc_match_w [].
+
+(** abbreviations used by the generated rows (fewer nodes to parse) *)
+Definition aT := s_type. Definition aV := s_value. Definition aG := s_tag. Definition nT := s_TTLV.
+Definition tyn (ty : Z) : list Z := type_name ty.
+(** the registered name of a tag *)
+Definition tn (G : registry) (t : Z) : list Z := match r_tag_name G t with Some n => n | None => [] end.
 
 (** writer rows: the calls, the tree an independent parser sees in the implementation's output,
     what typed re-reading of that output gave, what UnmarshalXML/JSON into ttlv.Value gave *)
 Definition xw_ok (G : registry) (r : item * xelem * oc * oc) : bool :=
   match r with (i, t, o1, o2) =>
-    xelem_eqb (xml_write1 G i) t && oc_match (xml_reread G i [t] false) o1 &&
-    oc_match (xml_unmarshal G [t] false) o2
+    let w := wire_enc i in
+    xelem_eqb (xml_write1 G i) t && oc_match_w w (xml_reread G i [t] false) o1 &&
+    oc_match_w w (xml_unmarshal G [t] false) o2
   end.
 Definition jw_ok (G : registry) (r : item * jvalue * oc * oc) : bool :=
   match r with (i, t, o1, o2) =>
-    jvalue_eqb (json_write1 G i) t && oc_match (json_reread G i t) o1 &&
-    oc_match (json_unmarshal G t) o2
+    let w := wire_enc i in
+    jvalue_eqb (json_write1 G i) t && oc_match_w w (json_reread G i t) o1 &&
+    oc_match_w w (json_unmarshal G t) o2
   end.
 
-(** reader rows: a document as the independent parser sees it, an optional script
-    (None = Unmarshal into ttlv.Value), the observed outcome *)
-Definition xr_ok (G : registry) (r : list xelem * bool * option item * oc) : bool :=
-  match r with (doc, cut, op, o) =>
-    match op with
-    | None => oc_match (xml_unmarshal G doc cut) o
-    | Some s => oc_match (xml_reread G s doc cut) o
-    end
+(** reader rows: a document as the independent parser sees it, and for each operation run on it
+    (a script for typed reads, None = Unmarshal into ttlv.Value) the observed outcome *)
+Definition xr_ok (G : registry) (r : list xelem * bool * list (option item * oc)) : bool :=
+  match r with (doc, cut, ops) =>
+    forallb (fun p => match fst p with
+                      | None => oc_match (xml_unmarshal G doc cut) (snd p)
+                      | Some s => oc_match (xml_reread G s doc cut) (snd p)
+                      end) ops
   end.
-Definition jr_ok (G : registry) (r : jvalue * option item * oc) : bool :=
-  match r with (doc, op, o) =>
-    match op with
-    | None => oc_match (json_unmarshal G doc) o
-    | Some s => oc_match (json_reread G s doc) o
-    end
+Definition jr_ok (G : registry) (r : jvalue * list (option item * oc)) : bool :=
+  match r with (doc, ops) =>
+    forallb (fun p => match fst p with
+                      | None => oc_match (json_unmarshal G doc) (snd p)
+                      | Some s => oc_match (json_reread G s doc) (snd p)
+                      end) ops
   end.
